@@ -32,7 +32,7 @@ EXPLANATION = 'exhaustive_subspaces lists the history lengths enumerated complet
 ASSUMPTIONS = ['histories are short enough that no pipe fills (a full pipe would block the dispatcher by design)',
                'in-process delivery of the channel object stands in for pickling it through a multiprocessing.Queue (done for real in the thorough live tier)']
 
-SHORT_OPS: List[Tuple[Any, ...]] = [('sub', 'A', True), ('sub', 'B', False), ('unsub', 'A'), ('unsub', 'B'), ('pub',), ('burst', 2), ('break', 'A', False),
+SHORT_OPS: List[Tuple[Any, ...]] = [('sub', 'A', True), ('sub', 'B', False), ('sub', 'B', True, True), ('unsub', 'A'), ('unsub', 'B'), ('pub',), ('burst', 2), ('break', 'A', False),
                                     ('break', 'B', True)]
 
 
@@ -76,7 +76,7 @@ class HistoryQueue:
     def _do(self, op: Tuple[Any, ...]) -> None:
         kind = op[0]
         if kind == 'sub':
-            _, sid, duplex = op
+            sid, duplex = op[1], op[2]
             recv, send = multiprocessing.Pipe(duplex=bool(duplex))
             ch = {'id': sid, 'recv': recv, 'send': send, 'expected': [], 'state': 'live', 'duplex': bool(duplex), 'broken': False}
             if sid in self.current and self.channels[self.current[sid]]['state'] == 'live':
@@ -84,6 +84,11 @@ class HistoryQueue:
             self.channels.append(ch)
             self.current[sid] = len(self.channels) - 1
             self.eq.subscribe(sid, send)
+            if len(op) > 3 and op[3]:
+                # the subscriber goes away before the dispatcher gets to its subscription (e.g. setup() followed at once by shutdown())
+                recv.close()
+                ch['broken'] = True
+                ch['state'] = 'broken'
         elif kind == 'unsub':
             sid = op[1]
             if sid in self.current and self.channels[self.current[sid]]['state'] == 'live':
@@ -153,7 +158,7 @@ def evaluate(c: Dict[str, Any]) -> Tuple[List[Any], Dict[str, Any]]:
     two_live_across_pub = False
     for o in ops:
         if o[0] == 'sub':
-            cur[o[1]] = True
+            cur[o[1]] = not (len(o) > 3 and o[3])
         elif o[0] in ('unsub', 'break') and o[1] in cur:
             cur[o[1]] = False
         elif o[0] in ('pub', 'burst') and sum(cur.values()) >= 2:
@@ -346,7 +351,7 @@ def run_shard(spec: Dict[str, Any], seed: int, acc: Any) -> None:
                 acc.case(c, info['nontrivial'], labels=('len:%d' % n,))
                 for (cl, ft, ob, ex) in vs:
                     acc.fail(c, cl, ft, ob, ex)
-            acc.exhaustive_parts.append('all histories of length %d starting with %r over 8 ops / 2 subscribers' % (n, SHORT_OPS[spec['first']]))
+            acc.exhaustive_parts.append('all histories of length %d starting with %r over 9 ops / 2 subscribers' % (n, SHORT_OPS[spec['first']]))
         return
     if spec['kind'] == 'live':
         for i in range(spec['runs']):
@@ -367,7 +372,8 @@ def run_shard(spec: Dict[str, Any], seed: int, acc: Any) -> None:
         hyp.drive(st.fixed_dictionaries({'lifecycle': lops}), chk_l, acc, max_examples=spec['examples'], seed=seed, shrink=False)
         return
     ids = st.sampled_from(['A', 'B', 'C'])
-    op = st.one_of(st.tuples(st.just('sub'), ids, st.booleans()).map(list), st.tuples(st.just('unsub'), st.sampled_from(['A', 'B', 'C', 'Z'])).map(list),
+    op = st.one_of(st.tuples(st.just('sub'), ids, st.booleans()).map(list), st.tuples(st.just('sub'), ids, st.booleans(), st.just(True)).map(list),
+                   st.tuples(st.just('unsub'), st.sampled_from(['A', 'B', 'C', 'Z'])).map(list),
                    st.just(['pub']), st.just(['pub']), st.tuples(st.just('burst'), st.integers(2, 4)).map(list),
                    st.tuples(st.just('break'), ids, st.booleans()).map(list))
 
